@@ -497,6 +497,12 @@ impl<C: Codec> Ctx<C> {
     /// run the saved replays for this sub-check, then the generated search
     pub fn run<P: Prop>(&mut self) {
         assert_eq!(P::ID, self.property);
+        // development aid: VERIF_ONLY=<sub-check name> runs just that sub-check
+        if let Ok(only) = std::env::var("VERIF_ONLY") {
+            if only != P::NAME {
+                return;
+            }
+        }
         self.rules.push(format!("[{}] {}", P::NAME, P::rule()));
         if !self.violations.is_empty() {
             return;
